@@ -489,6 +489,16 @@ def GunShot.run : GunShot → ShotResult
   | .grpcScenario scn calls =>
     shootGrpcScenario scn (calls.map fun (c, r) => { tag := c.tag, outcome := grpcStepOutcome c r })
 
+/-- all `n` scenario shots of ONE client (one instance) over the connections the peer grants: the connection state is
+carried from shot to shot -/
+def scenarioShotsOverConns (dka : Bool) (dflt : ConnFate) (h2 : Bool) (scn : String) (steps : List (StepCfg × Reply)) :
+    Nat → Bool → List ConnFate → List GunShot
+  | 0, _, _ => []
+  | n + 1, isOpen, plan =>
+    GunShot.scenario h2 scn (scenarioOverConns dka dflt h2 isOpen plan steps).1 ::
+      scenarioShotsOverConns dka dflt h2 scn steps n (scenarioOverConns dka dflt h2 isOpen plan steps).2.1
+        (scenarioOverConns dka dflt h2 isOpen plan steps).2.2
+
 /-! ## `instance.Run` -/
 
 inductive RunResult where
